@@ -83,6 +83,17 @@ func (i *IterationDurations) Update(other *IterationDurations) {
 	}
 }
 
+// drain moves the accumulated values into a new IterationDurations, leaving i empty.
+func (i *IterationDurations) drain() *IterationDurations {
+	drained := &IterationDurations{}
+	drained.sum.Store(i.sum.Swap(0))
+	drained.count.Store(i.count.Swap(0))
+	drained.max.Store(i.max.Swap(0))
+	drained.min.Store(i.min.Swap(0))
+
+	return drained
+}
+
 func (i *IterationDurations) Reset() {
 	i.sum.Store(0)
 	i.count.Store(0)
@@ -100,9 +111,10 @@ func (d *DurationStats) Record(nanoseconds int64) {
 }
 
 func (d *DurationStats) CollectLifetime() (IterationDurationsSnapshot, IterationDurationsSnapshot) {
-	running := d.running.Snapshot()
-	d.lifetime.Update(&d.running)
-	d.running.Reset()
+	// take the running values out atomically: anything recorded concurrently is
+	// either part of what is taken now or stays for the next collection
+	running := d.running.drain()
+	d.lifetime.Update(running)
 
-	return running, d.lifetime.Snapshot()
+	return running.Snapshot(), d.lifetime.Snapshot()
 }
